@@ -44,7 +44,7 @@ var (
 	c24Hosts     = []string{"h1", "h2", "H1", "h1 ", ""}
 	c24Tags      = []string{"a", "b", "c", "a b"}
 	c24Paths     = []string{"/a", "/b", "/a/b", "/c d", "/"}
-	c24RawPaths  = []string{"/a", "/b", "/a/b", "/a/", "/a/../b", "/a//b", "rel", "./rel", "/"}
+	c24RawPaths  = []string{"/a", "/b", "/a/b", "/a/", "/a/../b", "/a//b", "/b/.", "rel", "/", "/c d/"}
 	c24BaseEpoch = int64(1700000000)
 )
 
@@ -128,13 +128,16 @@ func (h *H) c24Filter(rawPaths bool) *data.SnapshotFilter {
 				tl = data.TagList{}
 			default:
 				tl = data.TagList(h.c24Subset(c24Tags, 2, h.Intn(8) == 0))
+				if len(tl) == 0 {
+					tl = data.TagList{h.Pick(c24Tags)}
+				}
 			}
 			f.Tags = append(f.Tags, tl)
 		}
 	}
 	if h.Intn(2) == 0 {
 		if rawPaths {
-			f.Paths = h.c24Subset(c24RawPaths, 2, false)
+			f.Paths = h.c24Subset(c24RawPaths, 1+h.Intn(2), false)
 		} else {
 			f.Paths = h.c24Subset(c24Paths, 2, false)
 		}
